@@ -3,5 +3,5 @@
 root=$1; p=$2; P=$3
 for x in A B C; do
   d=${root}_$p/out/$x
-  [ -f $d/patch.diff ] && /verif/tools/seedtest.sh $P $d r2$p$x 2>&1 | grep SEED | cut -c1-420
+  [ -f $d/patch.diff ] && /verif/tools/seedtest.sh $P $d r${root: -1}$p$x 2>&1 | grep SEED | cut -c1-420
 done
